@@ -166,7 +166,7 @@ class C11(Check):
         crash = min(program["crash"], len(ops))
         closer = program["closer"]
         inner = CaseResult()
-        run = tree.TreeRun({**build, "ops": ops[:crash]}, inner, set())
+        run = tree.TreeRun({**build, "ops": ops[:crash]}, inner, set(), {"deferred_creation": False})
         twin = None
         extra_paths = []
         try:
